@@ -29,9 +29,22 @@ Theorem C15_relaxed_accepts : forall entries e n r s,
   exists v, dec_relaxed (build_enum true entries) s = Some v /\ In (enc v) (acc (build_enum true entries)).
 Proof. exact relaxed_accepts. Qed.
 Theorem C15_relaxed_rejects : forall entries s,
+  fallback (build_enum true entries) = None ->
   (forall e n r, In e entries -> normalize e = Some (n, r) -> lower_a r <> lower_a s) ->
   dec_relaxed (build_enum true entries) s = None.
 Proof. exact relaxed_rejects. Qed.
+(* the hypothesis on the fallback is needed: an enum one of whose values is named like `other` / `unknown` gets a
+   catch-all arm in relaxed mode, so every undeclared string is accepted (recorded finding relaxed-fallback-swallows-unknown) *)
+Theorem C15_relaxed_fallback_swallows : forall entries s fb,
+  fallback (build_enum true entries) = Some fb -> exists v, dec_relaxed (build_enum true entries) s = Some v.
+Proof. exact relaxed_fallback_swallows. Qed.
+Theorem C15_relaxed_rejects_refuted : exists entries s,
+  (forall e n r, In e entries -> normalize e = Some (n, r) -> lower_a r <> lower_a s)
+  /\ option_map enc (dec_relaxed (build_enum true entries) s) = Some (la "other").
+Proof.
+  exists [JS (la "low"); JS (la "other"); JS (la "high")], (la "zzz"). split; [|vm_compute; reflexivity].
+  intros e n r [<-|[<-|[<-|[]]]] Hn; vm_compute in Hn; injection Hn as _ <-; vm_compute; discriminate.
+Qed.
 
 Check C15_merge_accepts : forall entries e n r,
   In e entries -> normalize e = Some (n, r) -> exists v, dec_strict (build_enum true entries) r = Some v.
@@ -63,3 +76,5 @@ Print Assumptions C15_preserve_roundtrip.
 Print Assumptions C15_preserve_rejects.
 Print Assumptions C15_relaxed_accepts.
 Print Assumptions C15_relaxed_rejects.
+Print Assumptions C15_relaxed_fallback_swallows.
+Print Assumptions C15_relaxed_rejects_refuted.
